@@ -95,11 +95,12 @@ def gen(rng, tier, i):
                 mode = rng.choice([0, 1])
                 pairs.append({'kind': 'dataset', 'mode': mode, 'j': rng.randrange(n_sets), 'per_lane': [rng.randrange(n_sets) for _ in range(sims)], 'cls': rng.choice(['cpu', 'gpu'])})
     case['pairs'] = pairs
-    lsims = rng.choice([1, 3, 8, 9, 13, 16, 20, 33, 300])
+    lsims = rng.choice([1, 3, 8, 9, 13, 16, 20, 33, 300, 121, 127, 250, 255])
     n2 = rng.choice([lsims, lsims + 1, lsims + 8, 24, 40, 64, 65, 257])
     perm = list(range(n2)); rng.shuffle(perm)
     case['logic'] = {'m': rng.choice([2, 4, 8]), 'sims': lsims, 'vals': [rng.choice([0, 0, 2, 2, 3, 1, rng.randrange(8)]) for _ in range(rng.randint(3, 23))],
-                     'sims2': n2, 'lane_map': [perm[l] if l < n2 else None for l in range(lsims)], 'cycles': rng.choice([1, 1, 2, 3])}
+                     'sims2': n2, 'lane_map': [perm[l] if l < n2 else None for l in range(lsims)], 'cycles': rng.choice([1, 1, 2, 3]),
+                     'sims_type': rng.choice(['int', 'int', 'int', 'int64', 'narrow_u', 'narrow_i'])}      # lane counts as NumPy scalars, also of the narrowest type that holds them
     return case
 
 
@@ -299,7 +300,12 @@ def logic_pairs(built, lc, res):
     res.probe('pair_logic')
 
     def run(sims_, mv, c_reuse, strip):
-        sim = lsim.make(c, sims_, m, c_reuse, strip)
+        st_ = lc.get('sims_type', 'int')
+        if st_ == 'int64': sims_arg = np.int64(sims_)
+        elif st_ == 'narrow_u': sims_arg = np.min_scalar_type(int(sims_)).type(sims_)
+        elif st_ == 'narrow_i': sims_arg = (np.int8 if sims_ < 128 else np.int16)(sims_)
+        else: sims_arg = int(sims_)
+        sim = lsim.make(c, sims_arg, m, c_reuse, strip)
         lsim.assign(sim, mv)
         outs = []
         for _ in range(int(lc.get('cycles', 1))):
